@@ -32,7 +32,9 @@ type C13Case struct {
 
 // strings used in several roles across configurations
 var c13Strings = []string{"abc", "a+", "select", "x", "ab", "/p/{id}", "[a-c]+", "4\\d\\d", "admin", "\\d{3}", "Abc", "^X-Tok", "^[A-C]b"}
-var c13Phrases = [][]string{{"abc", "select"}, {"zzz"}, {"admin", "x1"}, {"ab"}, {"union", "abc"}}
+var c13Phrases = [][]string{{"abc", "select"}, {"zzz"}, {"admin", "x1"}, {"ab"}, {"union", "abc"},
+	// lists that differ only in where the phrase boundaries fall
+	{"ab", "c"}, {"a", "bc"}, {"abc"}, {"union", "select"}, {"unionselect"}}
 
 func genC13Line(t *rapid.T, id int, s string) string {
 	switch rapid.IntRange(0, 11).Draw(t, "role") {
@@ -92,7 +94,7 @@ func genC13(t *rapid.T) *C13Case {
 	c.Req = Req{Method: "GET", Path: rapid.SampledFrom([]string{"/p/7", "/abc", "/"}).Draw(t, "path")}
 	c.Req.Headers = []KV{{"Host", "h"}, {rapid.SampledFrom([]string{"X-Token", "Abc", "abc", "x"}).Draw(t, "hn"), "hv"}}
 	c.Req.Cookies = []KV{{rapid.SampledFrom([]string{"Abc", "X-Tok", "ab"}).Draw(t, "cn"), "cv"}}
-	vals := []string{"abc", "aaa", "select 1", "x", "ab", "123-45-6789", "404", "admin", "zzz", "union", "\xffabc", "x1", "ABC"}
+	vals := []string{"abc", "aaa", "select 1", "x", "ab", "123-45-6789", "404", "admin", "zzz", "union", "\xffabc", "x1", "ABC", "c", "bc", "unionselect", "a"}
 	na := rapid.IntRange(2, 6).Draw(t, "nargs")
 	for i := 0; i < na; i++ {
 		c.Req.Query = append(c.Req.Query, KV{rapid.SampledFrom([]string{"a", "abc", "x", "select", "ab", "Abc", "X-Token"}).Draw(t, "an"), rapid.SampledFrom(vals).Draw(t, "av")})
